@@ -124,7 +124,7 @@ def varargs_safe_helper(R, prefix):
                 if not (isinstance(c.args[0], ast.Tuple) and not c.args[0].elts):
                     ok = False
                 st = q.enclosing_stmt(c)
-                if not (isinstance(st, ast.Return) and q.src(st.value).startswith("tuple(%s) + " % a)):
+                if not (isinstance(st, (ast.Return, ast.Assign)) and q.src(st.value).startswith("tuple(%s) + " % a)):
                     ok = False
             else:
                 ok = False
@@ -132,8 +132,17 @@ def varargs_safe_helper(R, prefix):
                 ok = False
         # every result of the helper went through the normaliser with the defaults (no shortcut that skips defaults / keyword matching)
         rets = [nn for nn in q.scope_nodes(f.node) if isinstance(nn, ast.Return)]
-        raw = [r for r in rets if not any(isinstance(x, ast.Call) and q.call_name(x) == "get_args_tuple" and len(x.args) == 4 and q.src(x.args[3]) == d
-                                          for x in ast.walk(r))]
+        def normalised_expr(e, depth=0):
+            if any(isinstance(x, ast.Call) and q.call_name(x) == "get_args_tuple" and len(x.args) == 4 and q.src(x.args[3]) == d for x in ast.walk(e)):
+                return True
+            if depth < 2:
+                # a local that holds the normalised tuple on every path (`key = ...` in both arms, `return key + extra`)
+                for nm in [x for x in ast.walk(e) if isinstance(x, ast.Name) and isinstance(x.ctx, ast.Load)]:
+                    vals = common.assigned_values(f.node, nm.id)
+                    if vals and all(k_ == "expr" and normalised_expr(v_, depth + 1) for k_, v_ in vals):
+                        return True
+            return False
+        raw = [r for r in rets if r.value is None or not normalised_expr(r.value)]
         R.check(rets and not raw, prefix + ".KEY-NORMALISED", f.qualname + ":every-return", R.site(f),
                 "%s returns a tuple normalised by get_args_tuple(..., %s) on every path" % (name, d),
                 "%s can return a key that did not go through get_args_tuple with the defaults (%s): a call that omits a defaulted argument and a call that spells "
@@ -166,6 +175,13 @@ def kw_apart(R, f, cfg, calls, k, prefix):
                 if any(q.src(g.iter) in (k, k + ".keys()", "%s.items()" % k) for g in c.generators) and \
                         any(isinstance(o, ast.NotIn) for g in c.generators for i in g.ifs for cmp_ in ast.walk(i) if isinstance(cmp_, ast.Compare) for o in cmp_.ops):
                     extras.add(st.targets[0].id)
+    # (... or collected by a loop over the mapping: E = []; for n in k: <filter with in / not in>; E.append(n))
+    for lp in [x for x in ast.walk(f.node) if isinstance(x, ast.For) and q.src(x.iter) in (k, k + ".keys()")]:
+        tests = [cmp_ for x in ast.walk(lp) if isinstance(x, ast.If) for cmp_ in ast.walk(x.test) if isinstance(cmp_, ast.Compare) and any(isinstance(o, (ast.In, ast.NotIn)) for o in cmp_.ops)]
+        for c_ in q.calls(lp):
+            recv_, attr_ = q.attr_call(c_)
+            if attr_ in ("append", "add") and isinstance(recv_, ast.Name) and tests and c_.args and q.src(c_.args[0]) == q.src(lp.target):
+                extras.add(recv_.id)
     # the mapping is narrowed to the parameters: k = {... for ... in k if ... not in E}
     narrow = []
     for n in cfg.nodes:
@@ -204,6 +220,7 @@ def kw_apart(R, f, cfg, calls, k, prefix):
                 sent_locals.add(st.targets[0].id)
     rets = [nn for nn in q.scope_nodes(f.node) if isinstance(nn, ast.Return) and nn.value is not None]
     bad = [r for r in rets if not (q.names_loaded(r.value) & (sent_locals | sentinels))]
+    # (sentinel-carrying locals may be bound to () on the no-surplus path: that is the point)
     R.check(bool(rets) and not bad and bool(sentinels), prefix + ".KW-APART", f.qualname + ":separator", R.site(f, bad[0] if bad else None),
             "every key %s returns carries the surplus keywords behind a module-level sentinel object" % f.name,
             "%s returns a key (%s) in which the surplus keywords are not set off by a sentinel that no argument can equal: a positional argument that "
